@@ -79,8 +79,13 @@ func (vc VisitorContext) Visit(node jet.Node) {
 		vc.visitIndexExprNode(node)
 	case *jet.SliceExprNode:
 		vc.visitSliceExprNode(node)
+	case *jet.TryNode:
+		vc.visitTryNode(node)
+	case *jet.ReturnNode:
+		vc.visitReturnNode(node)
 	case *jet.TextNode:
 	case *jet.IdentifierNode:
+	case *jet.UnderscoreNode:
 	case *jet.StringNode:
 	case *jet.NilNode:
 	case *jet.NumberNode:
@@ -93,7 +98,24 @@ func (vc VisitorContext) Visit(node jet.Node) {
 }
 
 func (vc VisitorContext) visitIncludeNode(includeNode *jet.IncludeNode) {
-	vc.visitNode(includeNode)
+	vc.visitNode(includeNode.Name)
+	if includeNode.Context != nil {
+		vc.visitNode(includeNode.Context)
+	}
+}
+
+func (vc VisitorContext) visitTryNode(tryNode *jet.TryNode) {
+	vc.visitNode(tryNode.List)
+	if tryNode.Catch != nil {
+		if tryNode.Catch.Err != nil {
+			vc.visitNode(tryNode.Catch.Err)
+		}
+		vc.visitNode(tryNode.Catch.List)
+	}
+}
+
+func (vc VisitorContext) visitReturnNode(returnNode *jet.ReturnNode) {
+	vc.visitNode(returnNode.Value)
 }
 
 func (vc VisitorContext) visitBlockNode(blockNode *jet.BlockNode) {
@@ -144,9 +166,11 @@ func (vc VisitorContext) visitBranchNode(branchNode *jet.BranchNode) {
 }
 
 func (vc VisitorContext) visitYieldNode(yieldNode *jet.YieldNode) {
-	for _, node := range yieldNode.Parameters.List {
-		if node.Expression != nil {
-			vc.visitNode(node.Expression)
+	if yieldNode.Parameters != nil { // nil for {{yield content}}
+		for _, node := range yieldNode.Parameters.List {
+			if node.Expression != nil {
+				vc.visitNode(node.Expression)
+			}
 		}
 	}
 	if yieldNode.Expression != nil {
@@ -167,7 +191,9 @@ func (vc VisitorContext) visitSetNode(setNode *jet.SetNode) {
 }
 
 func (vc VisitorContext) visitAdditiveExprNode(additiveExprNode *jet.AdditiveExprNode) {
-	vc.visitNode(additiveExprNode.Left)
+	if additiveExprNode.Left != nil { // nil for unary + and -
+		vc.visitNode(additiveExprNode.Left)
+	}
 	vc.visitNode(additiveExprNode.Right)
 }
 
@@ -215,8 +241,12 @@ func (vc VisitorContext) visitIndexExprNode(indexNode *jet.IndexExprNode) {
 
 func (vc VisitorContext) visitSliceExprNode(sliceExprNode *jet.SliceExprNode) {
 	vc.visitNode(sliceExprNode.Base)
-	vc.visitNode(sliceExprNode.Index)
-	vc.visitNode(sliceExprNode.EndIndex)
+	if sliceExprNode.Index != nil {
+		vc.visitNode(sliceExprNode.Index)
+	}
+	if sliceExprNode.EndIndex != nil {
+		vc.visitNode(sliceExprNode.EndIndex)
+	}
 }
 
 func (vc VisitorContext) visitCommandNode(commandNode *jet.CommandNode) {
